@@ -685,6 +685,7 @@ def fock_allsizes(kind="uhf"):
                 return None
             return [T.trace(x, len(x.axes) - 2, len(x.axes) - 1)]
         it = T.Interp(sizes, intercept={"trace": h_trace}, prim_hook={"eigh": h_eigh})
+        it.scan_first_only = True
         try:
             it.run(closed.jaxpr, closed.consts, args)
             return [ob(name, UNDECIDED, kind="proof", backend="tensor-normal-form", detail="the eigen-solver was not reached", functions=fns)]
@@ -757,3 +758,62 @@ def _replay_fock(o, kind):
         o["witness"] = dict(o.get("witness") or {}, native=dict(norb=n, nelec=nel, projector_change_of_a_converged_solution=dev))
     except Exception as e:   # noqa
         o["witness"] = dict(o.get("witness") or {}, native_error=repr(e)[:300])
+
+
+def taylor_allsizes(n_exp_terms=6):
+    """C05.fp.taylor.allsizes / C04 (PROOF, all norb and nocc): the REAL _apply_trotprop_det(B, vhs, phi) == B sum_{m < n_exp_terms} vhs^m / m! B phi
+    (the scan over Taylor terms is unrolled: its length is the static n_exp_terms)"""
+    t0 = time.time()
+    H.setup_repo()
+    import math
+    import jax
+    import jax.numpy as jnp
+    from ad_afqmc import propagation
+    name = f"C05.fp.taylor.allsizes[n_exp_terms={n_exp_terms}]"
+    fns = ["propagation.propagator._apply_trotprop_det"]
+    results = []
+    for sizes in (dict(n=5, a=2), dict(n=7, a=3)):
+        n, a = sizes["n"], sizes["a"]
+        prop = propagation.propagator_restricted(dt=0.01, n_walkers=1, n_exp_terms=n_exp_terms)
+        closed = jax.make_jaxpr(lambda B, v, w: prop._apply_trotprop_det(B, v, w))(jnp.zeros((n, n)), jnp.zeros((n, n)) + 0j, jnp.zeros((n, a)) + 0j)
+        B, V_, W = T.atom("B", ["n", "n"]), T.atom("vhs", ["n", "n"]), T.atom("phi", ["n", "a"])
+        it = T.Interp(sizes)
+        try:
+            got, = it.run(closed.jaxpr, closed.consts, [B, V_, W])
+        except Unsupported as e:
+            return [ob(name, UNDECIDED, kind="proof", backend="tensor-normal-form", detail=f"Unsupported: {e}", functions=fns, wall=time.time() - t0)]
+        cur = T.ein("pq,qi->pi", B, W)
+        acc = cur
+        for m in range(1, n_exp_terms):
+            cur = T.ein("pq,qi->pi", V_, cur)
+            acc = T.add(acc, T.scale(cur, Fraction(1, math.factorial(m))))
+        want = T.ein("pq,qi->pi", B, acc)
+        results.append((got, want, dict(it.seen)))
+    (g1, w1, s1), (g2, w2, s2) = results
+    uniform = T.describe(g1) == T.describe(g2) and s1 == s2
+    ok = T.equal(g1, w1)
+    out = [ob(name + ".uniform", DISCHARGED if uniform else UNDECIDED, kind="proof", backend="tensor-normal-form", functions=fns, wall=time.time() - t0,
+              detail=f"same traced program and normal form at (norb, nocc) = (5,2), (7,3); primitives {s1}"),
+           ob(name, DISCHARGED if ok else REFUTED, kind="proof", backend="tensor-normal-form", functions=fns, wall=time.time() - t0, replayed=None if ok else _replay_taylor(n_exp_terms),
+              detail=(f"{len(T.canonical(g1)[1])} canonical terms: B sum_(m<{n_exp_terms}) vhs^m/m! B phi, all sizes, all values") if ok else
+                     f"normal form {str(T.describe(g1))[:500]} vs spec {str(T.describe(w1))[:300]}",
+              witness=None if ok else dict(got=str(T.describe(g1))[:700]), witness_class="" if ok else "normal-form")]
+    return out
+
+
+def _replay_taylor(n_exp_terms):
+    try:
+        import math
+        import jax.numpy as jnp
+        from ad_afqmc import propagation
+        rng = np.random.default_rng(2)
+        n, a = 3, 2
+        prop = propagation.propagator_restricted(dt=0.01, n_walkers=1, n_exp_terms=n_exp_terms)
+        B = np.eye(n) + 0.1 * rng.normal(size=(n, n)); V_ = 0.3 * (rng.normal(size=(n, n)) + 1j * rng.normal(size=(n, n))); W = rng.normal(size=(n, a)) + 0j
+        got = np.asarray(prop._apply_trotprop_det(jnp.asarray(B), jnp.asarray(V_), jnp.asarray(W)))
+        cur = B @ W; acc = cur.copy()
+        for m in range(1, n_exp_terms):
+            cur = V_ @ cur; acc = acc + cur / math.factorial(m)
+        return bool(np.abs(got - B @ acc).max() > 1e-10)
+    except Exception:   # noqa
+        return None
